@@ -71,11 +71,41 @@ CHECKS = {
         text="Both CPU buffer kinds x capacity 0..10 (thorough 0..20) x every (offset,length) x every copying primitive and source kind/layout/dtype; poisoned background; storage read back directly; extracted copies independent, typed views aliasing (both directions).",
         note="Requests outside the capacity are not part of the property.",
         design="2/C13"),
+    "C14": dict(
+        technique="exhaustive enumeration of dependency graphs (node kinds x structural edges x _depends_on edges) x root subsets x root orders on real classes; closure/once/order oracle against a graph model, compiler and cffi acceptance, real builds",
+        text="All graphs on <= 3 (thorough <= 4) named classes over {struct with fields, field-less struct, array of, union reference of, hybrid class} with by-value / Ref / item / member edges and up to 2-3 arbitrary _depends_on edges (forward edges close cycles) x every non-empty root subset in every order: sort_classes output == transitive closure, every class once, dependencies first; assembled source has one XOBJ_TYPEDEF block per class and passes gcc -fsyntax-only; declarations pass cffi.FFI().cdef; real ctx.add_kernels for the small graphs; every cyclic graph raises ValueError.",
+        note="Class names are unique inside a graph.",
+        design="2/C14"),
     "C15": dict(
         technique="exhaustive enumeration of (type, target): token-stream comparison of the four specialisations, address-space qualifier scan, compiler acceptance, and host EXECUTION of the real OpenCL text (clang -x cl) and CUDA text (g++) for every path/index/object against the Python view",
         text="For every type of the C02 universe: identical token streams modulo qualifier tokens across cpu_serial/cpu_openmp/opencl/cuda; every pointer type of the OpenCL text carries __global and the text passes clang -x cl -cl-std=CL1.2; all forms pass gcc/g++ with keywords defined away; OpenCL and CUDA forms are executed on the host for every accessor x index tuple x object and agree with Python (values, addresses, lengths, member ids; setters confined).",
         note="Host compilers stand in for device compilers.",
         design="2/C15"),
+    "C16": dict(
+        technique="exhaustive enumeration of well-formed annotated kernel skeletons x n x launch geometry, each built and EXECUTED on all four targets (real ContextCpu serial/OpenMP; real ContextCupy / ContextPyopencl code over device stubs that run host builds of the real specialised text); counter/marker oracle",
+        text="All skeletons over the annotation vocabulary (prefix lines: plain, #define only_for_context X, include_file for_context X, gpufun helper with gpuglmem/restrict; 1-2 vectorised blocks in both spellings; bodies of counter increments, context-restricted marker stores, helper calls; X over 7 context sets) x n in {0,1,2,3,5,8,9,255,256,257,513} x CUDA block sizes {1,2,4,256}: per-index counters exactly once on [0,n), zero on a guard band, context restrictions active exactly where named, unannotated text verbatim and in order, all targets agree.",
+        note="GPU compilers/schedulers are replaced by clang -x cl / g++ host builds driven sequentially; statements outside blocks are idempotent and compared for n >= 1.",
+        design="2/C16"),
+    "C17": dict(
+        technique="exhaustive case enumeration (kinds x extremes x views x refusals) plus explicit-state BFS over {create object, grow, free} histories with every live object passed to address-reporting kernels at every state, through the real cffi kernel call path",
+        text="Identity and store kernels for the 10 scalar kinds x type extremes (bit patterns), 100 arity-3 kernels mixing a by-value scalar, an xobject and a pointer; NumPy pointer arguments as whole / offset slice / strided / 2-D sub-block / reversed / F-order views and xobject arrays (address and value of the first element); refusals (positional, missing, extra, misnamed, wrong element dtype); histories to depth 4 (5) of object creation (struct, dynamic struct, array, union reference; aligned/packed), growth and free: pointer == current base + offset and content read in C == Python, serial and OpenMP contexts.",
+        note="Values not representable in the declared C type and empty pointer arrays are outside the property.",
+        design="2/C17"),
+    "C18": dict(
+        technique="explicit-state BFS (replay-based) over hybrid-object histories on real HybridClass objects against a value/sharing model; mirror oracle at every state, exploration continues after refusals",
+        text="10 hybrid class definitions x 3 rename variants; events {set scalar/string, set array whole/element, nested assignment from dict / hybrid of same or other buffer, reference assignment same buffer / other buffer (MemoryError) / None, copy to same buffer / other buffer / other context, move (top level; nested and ref-holding refused), write through a dressed child, mutate the source}; depth 3 (4): attribute == _xobject field == model for every field at every nesting level, dressed child _xobject is the container's field, copies independent, references shared, moved parts in the target buffer.",
+        note="By-value assignments use fitting values.",
+        design="2/C18"),
+    "C19": dict(
+        technique="exhaustive enumeration of hybrid class definitions (field kind x default kind x rename) x value choices, and of reference-free 1-D-array types x values, on the real to_dict/from_dict/_to_json code; round-trip and elision oracle",
+        text="Every 1-2 field hybrid class over {Int64, Float64, String, Float64[3], Int32[:], nested hybrid} x {no default, default=, default_factory=} x {no rename, first field renamed} x {equal to default, different, zero, empty}: from_dict(to_dict()) equal on every field, dictionary JSON-encodable, field with declared default absent iff equal to it; T(x._to_json()) == x for every reference-free universe type whose arrays are all 1-D x 3 value alphabets (raw and JSON-decoded form).",
+        note="N-D arrays are outside the property.",
+        design="2/C19"),
+    "C20": dict(
+        technique="exhaustive case enumeration (importable types x values x buffer-sharing groups) + depth-bounded BFS over writes on either side and allocations on the unpickled buffer, on real pickle round trips; value model + byte-map allocator model",
+        text="23 importable struct/array-subclass classes (incl. >= 2 dynamic fields, nested, references) and 3 hybrid classes x 3 value alphabets x 5 groups (1-3 objects over 1-2 buffers, both buffer kinds): equal values through every accessor, structure accessors usable, sharing preserved exactly, independence under every single write (thorough: pairs) on either side, unpickled buffer allocates first-fit without touching the unpickled objects.",
+        note="Kernels are not pickled; the unpickled context is a fresh serial context.",
+        design="2/C20"),
 }
 
 NOT_APPLICABLE = {}
